@@ -95,7 +95,7 @@ class C11(vlib.Driver):
             "or not) and a few larger; kind=float: arbitrary binary64 priorities, alpha in {0,0.4,0.6,1}, compared bit-exactly "
             "with the PrimFloat instance after every op; kind=exact: integer priorities, alpha=1, dyadic draws, batch a power of "
             "two, compared with the rational instance (the instance the theorems are about) AND the float instance; "
-            "exhaustive sequences of length <= 4 on max_size 1..3 (quick), <= 5 on max_size 1..3 and <= 4 on max_size 4 (thorough). Distinct = distinct (kind, max_size, alpha, beta, op list incl. values). "
+            "exhaustive sequences of length <= 4 on max_size 1..3 (quick), <= 5 on max_size 1..4 (thorough; of the 6976 length-5 sequences on max_size 4 every 8th is K-compared, all go through the oracle); paired n-step buffer cases (kind=nstep, oracle only); boundary cases for defaults / empty-slot updates / numpy arguments. Distinct = distinct (kind, max_size, alpha, beta, op list incl. values). "
             "Non-trivial = at least one wrap-around of the write pointer, or a sample after >= 2 additions.")
     trusted_base = ["hand-written model coq/theories/C11/Model.v (carrier-generic; x**alpha and x**-beta are computed by CPython "
                     "and passed as tables)",
@@ -113,19 +113,17 @@ class C11(vlib.Driver):
     shard = 20       # small files: coqc needs ~0.5 GB per MB of hex-float literals
     coq_dirs = ("C09",)      # C11/Joint.v composes the priority model with the C09 ring buffer
 
-    strict = False
+    strict = True      # the model K runs: _update_priority asserts idx < len(buffer) (fix 123e2e4; Strict.v, strict = true)
 
     def setup(self, tier):
-        """K follows the assertion the tree makes in _update_priority (idx < max_size, or idx < len after the repair);
-        the oracle states the property whichever it is."""
         b = PrioritizedReplayBuffer(max_size=2, alpha=1.0)
         b.add(make_transition([1]))
         try:
             b.update_priorities(torch.tensor([1]), torch.tensor([1.0]))
-            self.strict = False
+            seen = "idx < max_size (pre-fix)"
         except AssertionError:
-            self.strict = True
-        self.notes = [f"_update_priority assertion observed on this tree: idx < {'len(buffer)' if self.strict else 'max_size'}"]
+            seen = "idx < len(buffer)"
+        self.notes = [f"_update_priority assertion observed on this tree: {seen}; model: idx < len(buffer)"]
 
     # ------------------------------------------------------------------ generation
     def _draw(self, rng):
@@ -170,9 +168,18 @@ class C11(vlib.Driver):
                 prios = [self._prio(rng, dt) for _ in range(k)]
                 if rng.random() < 0.04:
                     idxs[rng.randrange(k)] = m            # malformed: the assertion 0 <= idx < max_size fires
+                elif rng.random() < 0.02:
+                    idxs[rng.randrange(k)] = -1           # malformed: negative index, the assertion 0 <= idx fires
                 elif size < m and rng.random() < 0.05:
                     idxs[rng.randrange(k)] = rng.choice([size, m - 1])   # an empty slot below max_size
-                ops.append(["update", idxs, prios, dt] + ([rng.choice(["col", "np"])] if rng.random() < 0.5 else []))
+                if rng.random() < 0.06:
+                    prios = prios + [self._prio(rng, dt)]  # one priority too many: zip() drops it
+                elif k > 1 and rng.random() < 0.06:
+                    prios = prios[:-1]                    # one priority too few: the last index is not updated
+                shape = [rng.choice(["col", "np"])] if rng.random() < 0.5 else []
+                if len(prios) != len(idxs) and shape == ["col"]:
+                    shape = []
+                ops.append(["update", idxs, prios, dt] + shape)
             elif r < 0.96:
                 b = rng.choice([1, 2, 3, 4, 5, 7, 8])
                 ops.append(["sample", [self._draw(rng) for _ in range(b)]])
@@ -212,6 +219,8 @@ class C11(vlib.Driver):
             for _ in range(rng.choice([1, 2, 3])):
                 a = rng.randrange(c)
                 b = rng.choice([0, a + 1, c, rng.randint(a + 1, c)])
+                if a + 1 < c and rng.random() < 0.2:
+                    b = rng.randint(a + 1, c - 1) - c          # negative end: counts back from the capacity
                 qs.append([a, b])
             rg[str(oi)] = qs
         case["ranges"] = rg
@@ -252,7 +261,7 @@ class C11(vlib.Driver):
         maxlen = 4 if tier == "quick" else 5
         self.exhaustive = True
         for m in caps:
-            for L in range(1, (maxlen if m <= 3 else maxlen - 1) + 1):     # max_size 4 one op shorter (7^5 sequences otherwise)
+            for L in range(1, maxlen + 1):
                 alphabet = [("add", n) for n in range(1, m + 1)] + [("upd",), ("smp",), ("clear",)]
                 for seq in itertools.product(alphabet, repeat=L):
                     if seq[0][0] != "add" or seq[-1][0] in ("clear",):
@@ -275,9 +284,16 @@ class C11(vlib.Driver):
                             # u = 0 puts the query mass exactly on a stratum boundary
                             ops.append(["sample", [rng.choice([0.0, 0.0, 0.5, 0.25, 0.9375]) for _ in range(b)]])
                     if ok:
-                        cases.append({"kind": "exact", "cap": m, "alpha": 1.0, "beta": 0.4, "ops": ops, "every": 1})
+                        c = {"kind": "exact", "cap": m, "alpha": 1.0, "beta": 0.4, "ops": ops, "every": 1}
+                        if m == 4 and L == 5:
+                            # 6976 sequences: all of them run on the implementation and through the oracle,
+                            # every 8th one is also compared with the model inside Coq (cost)
+                            nbig = getattr(self, "_nbig", 0); self._nbig = nbig + 1
+                            if nbig % 8:
+                                c["no_k"] = True
+                        cases.append(c)
         # --- seeded interleavings
-        nfloat, nexact = (260, 90) if tier == "quick" else (2500, 800)
+        nfloat, nexact = (260, 90) if tier == "quick" else (1200, 400)
         for _ in range(nfloat):
             m = rng.choice([1, 2, 3, 4, 5, 6, 7, 8, 9, 9, 5, 3, 12, 17])
             nops = rng.choice([8, 16, 30]) if tier == "quick" else rng.choice([10, 30, 60])
@@ -379,8 +395,8 @@ class C11(vlib.Driver):
         return FLOOR if FLOOR > p else p
 
     def coq_term(self, case, obs):
-        if case["kind"] == "nstep":
-            return None                       # paired n-step buffer: oracle + theorem paired_rows_aligned (no K)
+        if case["kind"] == "nstep" or case.get("no_k"):
+            return None                       # paired n-step buffer: oracle + theorem paired_rows_aligned (no K); subsampled enumeration
         exact = case["kind"] == "exact"
         terms = [self._term(case, obs, False)]
         if exact:
@@ -405,7 +421,7 @@ class C11(vlib.Driver):
                 for i, p in zip(op[1], eff_prios(op)):
                     fp = self._floor(p)
                     tabA[fp] = fp ** alpha
-                    ps.append(f"({i}, {num(p)})")
+                    ps.append(f"({i if i >= 0 else 4000}, {num(p)})")   # negative index: the same assertion fails
                 ops.append(f"{pre}Upd [{'; '.join(ps)}]")
             elif op[0] == "sample":
                 ops.append(f"{pre}Smp [{'; '.join(num(u) for u in op[1])}]")
@@ -434,13 +450,17 @@ class C11(vlib.Driver):
                        + "; ".join(num(w) for w in (rec["sample"]["w"] if not as_q else [1.0] * len(rec["sample"]["idx"]))) + "]))")
             else:
                 smp = "None"
-            rngs = "[" + "; ".join(f"({a}, {b}, {num(sv)}, {onum(mv)})" for a, b, sv, mv in rec.get("ranges", [])) + "]"
+            # the model's operate takes a natural end; a negative end e means capacity + e (operate: `if end <= 0: end += capacity`)
+            rngs = "[" + "; ".join(f"({a}, {b if b >= 0 else rec['tcap'] + b}, {num(sv)}, {onum(mv)})" for a, b, sv, mv in rec.get("ranges", [])) + "]"
             obl.append(f"({rec['len']}, {rec['ptr']}, {num(rec['maxp'])}, {trees}, {vlib.coq_bool(rec['raised'])}, {smp}, {rngs})")
         if as_q:
             return f"check_exact {vlib.coq_bool(self.strict)} {case['cap']} [{'; '.join(ops)}] [{'; '.join(obl)}]"
         ta = "[" + "; ".join(f"({cq_f(k)}, {cq_f(v)})" for k, v in tabA.items()) + "]"
         tb = "[" + "; ".join(f"({cq_f(k)}, {cq_f(v)})" for k, v in tabB.items()) + "]"
-        return f"check_float {vlib.coq_bool(self.strict)} {case['cap']} {ta} {tb} [{'; '.join(ops)}] [{'; '.join(obl)}]"
+        def rat(x):
+            f = Fraction(x).limit_denominator(20)
+            return f"(Some ({f.numerator}%Z, {f.denominator}%positive))" if abs(float(f) - x) < 1e-12 and f >= 0 else "None"
+        return f"check_float {vlib.coq_bool(self.strict)} {case['cap']} {rat(alpha)} {rat(beta)} {ta} {tb} [{'; '.join(ops)}] [{'; '.join(obl)}]"
 
     # ------------------------------------------------------------------ oracle
     def oracle(self, case, obs):
@@ -466,14 +486,15 @@ class C11(vlib.Driver):
                 break
             if op[0] == "update":
                 held = min(n_added, m)            # transitions stored before this op
-                if any(held <= i < m for i in op[1]) and not rec["raised"] and not any(not (0 <= i < m) for i in op[1]):
+                used = op[1][:min(len(op[1]), len(op[2]))]      # zip() stops at the shorter argument
+                if any(held <= i < m for i in used) and not rec["raised"] and not any(not (0 <= i < m) for i in used):
                     # a slot that holds no transition was given a priority: from now on sample can return it
                     out.append(Violation("update-unstored-accepted", "update-unstored-accepted",
                                          f"op {oi}: update_priorities({op[1]}, ...) was accepted although only {held} of {m} slots hold a "
                                          f"transition; leaves with positive priority afterwards: "
                                          f"{[i for i, x in enumerate(rec['sum'][c:]) if x > 0]}"))
                     break
-                if rec["raised"] != any(not (0 <= i < held) for i in op[1]):
+                if rec["raised"] != any(not (0 <= i < held) for i in used):
                     V("update-raised", f"update_priorities({op[1]}, ...) raised={rec['raised']} with len {held}, max_size {m}")
                     break
             if rec["sum"] is None:
@@ -516,7 +537,7 @@ class C11(vlib.Driver):
                     V("min-node", f"min_tree.tree[{j}]={mt[j]!r} != min of its children {mt[2 * j]!r},{mt[2 * j + 1]!r}")
                     break
             for a, b, sv, mv in rec.get("ranges", []):
-                hi = b if b > 0 else c
+                hi = b if b > 0 else c + b
                 want_s, want_m = math.fsum(leaves[a:hi]), min(mleaves[a:hi])
                 if not math.isclose(sv, want_s, rel_tol=1e-9, abs_tol=0.0):
                     V("range-sum", f"sum_tree.sum({a},{b})={sv!r} but leaves[{a}:{hi}] add up to {want_s!r} (leaves {leaves})")
@@ -734,12 +755,16 @@ class C11(vlib.Driver):
         for op, rec in zip(case["ops"], obs["trace"]):
             labs.append(f"op={op[0]}")
             for a, b, _, _ in rec.get("ranges", []):
-                labs.append("range-query:" + ("full" if (a == 0 and b in (0, rec["tcap"])) else "single-leaf" if b == a + 1 else "partial"))
+                labs.append("range-query:" + ("negative-end" if b < 0 else "full" if (a == 0 and b in (0, rec["tcap"])) else "single-leaf" if b == a + 1 else "partial"))
             if op[0] == "update":
                 if len(op) > 4:
                     labs.append(f"update-args={op[4]}")
                 if any(i != m and i >= rec["len"] for i in op[1]):
                     labs.append("branch:update-unstored-index")
+                if any(i < 0 for i in op[1]):
+                    labs.append("branch:update-negative-index")
+                if len(op[1]) != len(op[2]):
+                    labs.append("branch:update-unequal-lengths")
                 if any(p < FLOOR for p in eff_prios(op)):
                     labs.append("branch:priority-floored")
                 if len(set(op[1])) < len(op[1]):
